@@ -498,6 +498,13 @@ impl<'ast> LoweringContext<'ast> {
             // Only compute fields if the type isn't disabled, otherwise we may encounter forbidden types
             if !attrs.disable {
                 for (name, ty, docs, attrs) in ast_out_struct.fields.iter() {
+                    if !ty.is_ffi_safe() {
+                        let ffisafe = ty.ffi_safe_version();
+                        self.errors.push(LoweringError::Other(format!(
+                            "Found FFI-unsafe type {ty} in struct field {}.{name}, consider using {ffisafe}",
+                            ast_out_struct.name
+                        )));
+                    }
                     let name = self.lower_ident(name, "out-struct field name");
                     let ty = self.lower_out_type(
                         ty,
